@@ -10,7 +10,8 @@ P=$1; shift
 git -C /tmp/wt_eval checkout -q --detach "$(git -C /repo rev-parse HEAD)" || exit 2
 git -C /tmp/wt_eval checkout -q -- . 
 mkdir -p /tmp/vx
-rsync -a --delete --exclude target --exclude replays --exclude logs --exclude evidence --exclude .git /verif/ /tmp/vx/
+# (the committed state of /verif, so that edits in progress do not leak into the judgement)
+rm -rf /tmp/vx/harness/src /tmp/vx/tools; git -C /verif archive HEAD -- check harness tools known_findings.json properties.jsonl MANIFEST.json | tar -x -C /tmp/vx
 mkdir -p /tmp/vx/evidence
 sed -i 's#path = "/repo"#path = "/tmp/wt_eval"#' /tmp/vx/harness/Cargo.toml
 sed -i 's#^target-dir.*#target-dir = "/tmp/vx/target"#' /tmp/vx/harness/.cargo/config.toml
